@@ -9,7 +9,7 @@ Reason(e) ==
          IF e.res # "ok" THEN "panic_after_loss"
          ELSE IF e.fresh_res # "ok" THEN "oracle_frame_b_not_decodable"
          ELSE IF e.used_res # "ok" THEN "next_frame_rejected_after_loss"
-         ELSE IF e.used_out # e.fresh_out THEN "next_frame_differs_from_fresh"
+         ELSE IF e.used_len # Len(e.fresh_out) \/ e.used_out # e.fresh_out THEN "next_frame_differs_from_fresh"
          ELSE ""
     [] OTHER -> "unknown_event"
 Init == l = 1 /\ st = FALSE
